@@ -255,9 +255,13 @@ class Program:
         self.inlined, self.not_inlined = [], []
         if self.normalize:
             from .normalize import inline_new_helpers, desugar_match, propagate_new_constants, restore_parameter_names
+            from .relocate import relocate_moved_definitions
+            self.relocated = relocate_moved_definitions({m.name: m.tree for m in self.modules.values()})
             self.renamed_parameters = restore_parameter_names({m.name: m.tree for m in self.modules.values()})
             from .normalize import restore_local_names
             self.renamed_locals = restore_local_names({m.name: m.tree for m in self.modules.values()})
+            from .normalize import positionalise_calls
+            positionalise_calls({m.name: m.tree for m in self.modules.values()})
             from .normalize import expand_table_spreads
             expand_table_spreads({m.name: m.tree for m in self.modules.values()})
             self.new_constants = propagate_new_constants({m.name: m.tree for m in self.modules.values()})
@@ -267,6 +271,8 @@ class Program:
             desugar_after_inlining({m.name: m.tree for m in self.modules.values()})
             self.records = desugar_namedtuples({m.name: m.tree for m in self.modules.values()})
             split_tuple_assignments({m.name: m.tree for m in self.modules.values()})
+            from .normalize import coalesce_copies
+            coalesce_copies({m.name: m.tree for m in self.modules.values()})
         self.absorbed = {h for _caller, h in self.inlined}       # new helpers whose bodies are analysed at their call sites
         for mod in self.modules.values():
             _set_parents(mod.tree)
